@@ -66,6 +66,8 @@ ESrc(e) ==
 TagSrc(wc, body) == "{%" \o wc[1] \o " " \o body \o " " \o wc[2] \o "%}"
 OutSrc(wc, body) == "{{" \o wc[1] \o " " \o body \o " " \o wc[2] \o "}}"
 
+KwSrc(kwargs) == JoinStr([i \in DOMAIN kwargs |-> kwargs[i].n \o ": " \o ESrc(kwargs[i].e)], ", ")
+
 RECURSIVE Src(_), NSrc(_)
 Src(nodes) == JoinStr([i \in DOMAIN nodes |-> NSrc(nodes[i])], "")
 
@@ -108,12 +110,26 @@ NSrc(n) ==
     [] n.k = "with" ->
          TagSrc(n.wc, "with " \o JoinStr([i \in DOMAIN n.args |-> n.args[i].n \o ": " \o ESrc(n.args[i].e)], ", "))
          \o Src(n.body) \o TagSrc(n.ewc, "endwith")
+    [] n.k \in {"include", "render"} ->
+         TagSrc(n.wc, n.k \o " " \o ESrc(n.name)
+            \o (IF n.mode = "none" THEN "" ELSE " " \o n.mode \o " " \o ESrc(n.var)
+                    \o (IF n.alias = "" THEN "" ELSE " as " \o n.alias))
+            \o (IF n.kwargs = <<>> THEN "" ELSE ", " \o KwSrc(n.kwargs)))
+    [] n.k = "macro" ->
+         TagSrc(n.wc, "macro " \o n.n \o (IF n.params = <<>> THEN "" ELSE " " \o
+              JoinStr([i \in DOMAIN n.params |-> n.params[i].n \o
+                          (IF n.params[i].has THEN ": " \o ESrc(n.params[i].e) ELSE "")], ", ")))
+         \o Src(n.body) \o TagSrc(n.ewc, "endmacro")
+    [] n.k = "call" ->
+         TagSrc(n.wc, "call " \o n.n \o (IF n.args = <<>> /\ n.kwargs = <<>> THEN "" ELSE " " \o
+              JoinStr([i \in DOMAIN n.args |-> ESrc(n.args[i])] \o
+                      (IF n.kwargs = <<>> THEN <<>> ELSE <<KwSrc(n.kwargs)>>), ", ")))
 
 -----------------------------------------------------------------------------
 (* whitespace-control carry *)
 FirstLeft(n) == n.wc[1]
 LastRight(n) ==
-  CASE n.k \in {"capture", "if", "unless", "case", "for", "with"} -> n.ewc[2]
+  CASE n.k \in {"capture", "if", "unless", "case", "for", "with", "macro"} -> n.ewc[2]
     [] n.k = "raw" -> n.wc[4]
     [] OTHER -> n.wc[2]
 
@@ -138,7 +154,7 @@ AnnotElse(els, ewc) ==
   IF els.has THEN [els EXCEPT !.body = Annot(els.body, els.wc[2], ewc[1])] ELSE els
 
 AnnotNode(n) ==
-  CASE n.k \in {"capture", "with"} -> [n EXCEPT !.body = Annot(n.body, n.wc[2], n.ewc[1])]
+  CASE n.k \in {"capture", "with", "macro"} -> [n EXCEPT !.body = Annot(n.body, n.wc[2], n.ewc[1])]
     [] n.k \in {"if", "unless"} ->
          [n EXCEPT !.body = Annot(n.body, n.wc[2], NextBranchLeft(n.elifs, 0, n.else, n.ewc)),
                    !.elifs = [j \in DOMAIN n.elifs |->
@@ -163,7 +179,7 @@ ClearWc(nodes) ==
      LET n == nodes[i] IN
      CASE n.k = "text" -> n
        [] n.k = "raw" -> [n EXCEPT !.wc = <<"", "", "", "">>]
-       [] n.k \in {"capture", "with"} -> [n EXCEPT !.wc = <<"", "">>, !.ewc = <<"", "">>, !.body = ClearWc(n.body)]
+       [] n.k \in {"capture", "with", "macro"} -> [n EXCEPT !.wc = <<"", "">>, !.ewc = <<"", "">>, !.body = ClearWc(n.body)]
        [] n.k \in {"if", "unless"} ->
             [n EXCEPT !.wc = <<"", "">>, !.ewc = <<"", "">>, !.body = ClearWc(n.body),
                       !.elifs = [j \in DOMAIN n.elifs |-> ClearBranch(n.elifs[j])],
